@@ -65,6 +65,7 @@ pub mod wire {
         ensures r == handshake_spec(connection), r is Ok ==> r->Ok_0 == connection { unimplemented!() }
 }
 pub struct Mailbox;
+#[verifier::external_body] pub fn explicit_panic() -> ! requires false { unimplemented!() }   // `panic!(..)`: must be unreachable
 pub struct Svc;
 impl Svc { #[verifier::external_body] pub fn clone(&self) -> (r: Svc) { unimplemented!() } }
 impl Config { #[verifier::external_body] pub fn clone(&self) -> (r: Config) ensures r == *self { unimplemented!() } }
@@ -98,7 +99,15 @@ pub mod oneshot {
     impl<T> Sender<T> {
         #[verifier::external_body] pub fn send(self, v: T) -> (r: core::result::Result<(), T>) { unimplemented!() }
     }
+    // what the receiving end of a one-shot channel sees: nothing yet, the value, or "the sender was dropped without sending"
+    pub mod error { pub enum TryRecvError { Empty, Closed } }
     impl<T> Receiver<T> {
+        pub uninterp spec fn closed(&self) -> bool;
+        #[verifier::external_body]
+        pub fn try_recv(&mut self) -> (r: core::result::Result<T, error::TryRecvError>)
+            ensures old(self).closed() ==> r == Err::<T, error::TryRecvError>(error::TryRecvError::Closed),
+                    !old(self).closed() && old(self).x@ is Some ==> r == Ok::<T, error::TryRecvError>(old(self).x@->Some_0),
+                    !old(self).closed() && old(self).x@ is None ==> r == Err::<T, error::TryRecvError>(error::TryRecvError::Empty) { unimplemented!() }
     }
     #[verifier::external_body] pub fn channel<T>() -> (r: (Sender<T>, Receiver<T>)) { unimplemented!() }
 }
@@ -261,6 +270,37 @@ impl ConnectionManager {
                 final(self).notified == old(self).notified,
     { unimplemented!() }
 """
+    # the retain pass that drains completed dials: the body of the `.retain(|peer_id, oneshot| match oneshot.try_recv() { .. })` closure
+    def wrap_match(e):
+        e.text = '{\n        match oneshot.try_recv() ' + e.text + '\n    }'
+        e.replace_macro('debug_assert_eq', '()')
+        e.replace_macro('panic', 'explicit_panic()')
+        e.log('X10', 'the closure body `match oneshot.try_recv() {..}` wrapped as the body of the lifted function; debug_assert_eq! dropped (a no-op in release builds)')
+    t += C.lifted(CM, 'impl ConnectionManager :: fn handle_connectivity_check', 'ConnectionManager::handle_connectivity_check::drain_one', ['C13', 'C06'],
+                  anchor=re.compile(r'oneshot\.try_recv\(\)'), kind='block', name='connectivity_check_drain_one',
+                  params='&mut self, peer_id: &PeerId, oneshot: &mut oneshot::Receiver<Result<PeerId>>, now: Instant', ret_ty='bool', ret='keep',
+                  transforms=[wrap_match], body_prefix='\n        broadcast use axiom_peer_id_key;\n',
+                  rewrites=[dict(rule='X5', pattern='std::time::Instant', repl='Instant', optional=True)],
+                  spec="""
+    requires
+        !old(oneshot).closed(),   // every dial the manager started is answered before its sender is dropped (handle_connecting_result::failure_is_reported / ::answers_...; exercised by enum_cm::dial_races_inbound_connect)
+        old(self).dial_backoff_states@.contains_key(*peer_id) ==> old(self).dial_backoff_states@[*peer_id].attempts < usize::MAX,
+        (match old(self).config.max_connection_backoff_ms { Some(ms) => ms as nat, None => 60000nat }) * 1000000 <= dmax(),
+    ensures
+        old(oneshot).x@ is None ==> keep && final(self).dial_backoff_states@ == old(self).dial_backoff_states@, // @OBL connectivity_check::drain_one::in_flight_stays [C13] a dial still in flight stays registered as pending and changes nothing
+        old(oneshot).x@ is Some && old(oneshot).x@->Some_0 is Ok ==> !keep && final(self).dial_backoff_states@ == old(self).dial_backoff_states@.remove(*peer_id), // @OBL connectivity_check::drain_one::success_clears_failures [C13] a successful dial ends the pending state and forgets the recorded failures of exactly that peer (the count is of CONSECUTIVE failures)
+        old(oneshot).x@ is Some && old(oneshot).x@->Some_0 is Err ==> !keep && final(self).dial_backoff_states@.contains_key(*peer_id)
+            && final(self).dial_backoff_states@[*peer_id].attempts as nat == (if old(self).dial_backoff_states@.contains_key(*peer_id) { old(self).dial_backoff_states@[*peer_id].attempts as nat + 1 } else { 1nat })
+            && final(self).dial_backoff_states@.remove(*peer_id) == old(self).dial_backoff_states@.remove(*peer_id), // @OBL connectivity_check::drain_one::failure_counts_one [C13] a failed dial ends the pending state and adds exactly one to the consecutive-failure count of exactly that peer (first failure: one); no other peer's record changes
+        old(oneshot).x@ is Some && old(oneshot).x@->Some_0 is Err ==> ({
+            let st = final(self).dial_backoff_states@[*peer_id];
+            let step = (match old(self).config.connection_backoff_ms { Some(ms) => ms as nat, None => 10000nat }) * 1000000;
+            let max = (match old(self).config.max_connection_backoff_ms { Some(ms) => ms as nat, None => 60000nat }) * 1000000;
+            st.backoff.t@ == now.t@ + natmin(max, natmin(step * clamp32(st.attempts as nat), dmax()))
+        }), // @OBL connectivity_check::drain_one::next_attempt_no_sooner_than_backoff [C13] and the next attempt is allowed no sooner than min(max-backoff, k x backoff-step) after the instant the failure was noticed (this check), k = consecutive failures
+        final(self).pending_dials == old(self).pending_dials && final(self).active_peers == old(self).active_peers && final(self).config == old(self).config
+            && final(self).endpoint == old(self).endpoint && final(self).dial_log == old(self).dial_log && final(self).notified == old(self).notified, // @OBL connectivity_check::drain_one::frame [C13] nothing else of the manager changes
+""", prose='lifted closure body verifies: the `panic!` for a dial whose answer channel was closed without an answer is unreachable given that every dial is answered; no other panic')
     # eligibility: the body of the `.filter(|peer_info| ..)` closure
     t += C.lifted(CM, 'impl ConnectionManager :: fn handle_connectivity_check', 'ConnectionManager::handle_connectivity_check::eligible', ['C13'],
                   anchor='.filter(|peer_info|', kind='block', name='connectivity_check_eligible',
